@@ -446,7 +446,7 @@ fn gen_pager_env(rng: &mut Rng, spec: &mut RunSpec, allow_config: bool) -> Pager
 }
 
 fn body_tokens(lines: &[gen::GLine]) -> Vec<u32> {
-    lines.iter().filter_map(|l| l.token.as_ref().map(|t| simcore::text::token_num(t))).collect()
+    lines.iter().filter(|l| l.kind != gen::LineKind::HunkHeader).filter_map(|l| l.token.as_ref().map(|t| simcore::text::token_num(t))).collect()
 }
 
 pub fn gen_scenario(seed: u64, idx: usize, big: bool) -> Scenario {
